@@ -1,6 +1,7 @@
 package main
 
 import (
+	"encoding/hex"
 	"errors"
 	"fmt"
 	"sort"
@@ -96,7 +97,7 @@ func startTagLines(src, tag string, occurrence int) (int, int) {
 }
 
 func runC17(res *Result, tier string, seed int64, replay string) {
-	res.Rule = "(1) EXHAUSTIVE matrix: every body component in a legal context × every attribute name from the union of all known names + invented ones (bogus, data-x, aria-y, class, css-class, mj-class, empty-looking names): error reported ⇔ the Spec (JSON table + always-accepted names) rejects, exactly one detail for the offending (tag, attribute), nothing else; HTML equal to the HTML of the same document without the attribute when the attribute is invalid. (1b) the same for the head elements, each written self-closing, empty, blank and with content (validation must not depend on the element having content). (1c) the same invalid attribute on several elements of one tag on one line: one detail per element. (2) seeded grammar documents with 1–4 invalid attributes injected at random elements, multi-line start tags, three layouts (one element per line, the whole document on one line, the first elements on the line of the root), void HTML tags inside mj-text written over several lines, documents preceded by comments and blank lines, also mixed with material that is kept (XML declaration, doctype, byte-order mark) in every order: every reported line must lie within the lines of that element's start tag in the ORIGINAL input; details = injected set. end tags written over several lines; (3) line lookup: real lineLookup (verif export) vs 1 + count of newlines, offsets queried in random order; (4) the three textual pre-passes and their composition byte for byte against the Lean Models (driver `strip` `amp` `ent` `wrap` `pre`) on the documents of (2) and on texts made of the pieces wrapMJTextContent and its void-tag pattern look at. Non-trivial = cell or document with an offending attribute; distinct by cell / source"
+	res.Rule = "(1) EXHAUSTIVE matrix: every body component in a legal context × every attribute name from the union of all known names + invented ones (bogus, data-x, aria-y, class, css-class, mj-class, empty-looking names): error reported ⇔ the Spec (JSON table + always-accepted names) rejects, exactly one detail for the offending (tag, attribute), nothing else; HTML equal to the HTML of the same document without the attribute when the attribute is invalid. (1b) the same for the head elements, each written self-closing, empty, blank and with content (validation must not depend on the element having content). (1c) the same invalid attribute on several elements of one tag on one line: one detail per element. (1d) the error value: seeded report sequences through mjml.ErrInvalidAttribute / Append / Error vs the Lean Model ErrorValue (driver `errval`). (2) seeded grammar documents with 1–4 invalid attributes injected at random elements, multi-line start tags, three layouts (one element per line, the whole document on one line, the first elements on the line of the root), void HTML tags inside mj-text written over several lines, documents preceded by comments and blank lines, also mixed with material that is kept (XML declaration, doctype, byte-order mark) in every order: every reported line must lie within the lines of that element's start tag in the ORIGINAL input; details = injected set. end tags written over several lines; (3) line lookup: real lineLookup (verif export) vs 1 + count of newlines, offsets queried in random order; (4) the three textual pre-passes and their composition byte for byte against the Lean Models (driver `strip` `amp` `ent` `wrap` `pre`) on the documents of (2) and on texts made of the pieces wrapMJTextContent and its void-tag pattern look at. Non-trivial = cell or document with an offending attribute; distinct by cell / source"
 	// ---- (1) matrix
 	names := map[string]bool{}
 	for _, t := range bodyTags {
@@ -229,6 +230,57 @@ func runC17(res *Result, tier string, seed int64, replay string) {
 						res.Violate(Violation{Sig: sig + "|head/" + t + "/" + a + "/" + sh, Kind: "cell", What: what, Input: map[string]string{"source": src}})
 					}
 				}
+			}
+		}
+	}
+	// ---- (1d) the error value through the public API (ErrInvalidAttribute, Append, Error) against the Lean Model ErrorValue
+	// (driver `errval`): seeded report sequences with repeated and look-alike reports, odd characters, lines of every size
+	if drv, derr0 := startDriverPool(2); replay == "" && derr0 == nil {
+		defer drv.Close()
+		tagsE := []string{"mj-text", "mj-image", "mj-section", "", "a b", "x:y", "é"}
+		attrsE := []string{"bogus", "colour", "", "data", "x'y", "a<b>", "ü"}
+		linesE := []int{0, 1, 7, 7, 12, -3, 100000, 2147483647}
+		ne := 200
+		if tier == "thorough" {
+			ne = 5000
+		}
+		for i := 0; i < ne; i++ {
+			r := NewRng(seed, fmt.Sprintf("c17/errval/%d", i))
+			var e *mjml.Error
+			var req strings.Builder
+			req.WriteString("errval")
+			k := r.Intn(7)
+			for j := 0; j < k; j++ {
+				t, a, l := r.Pick(tagsE), r.Pick(attrsE), linesE[r.Intn(len(linesE))]
+				if j > 0 && r.Bool(1, 3) {
+					req.WriteString(" " + strings.Fields(req.String())[len(strings.Fields(req.String()))-1]) // the same report again
+					f := strings.Split(strings.Fields(req.String())[len(strings.Fields(req.String()))-1], ":")
+					tb, _ := hex.DecodeString(strings.TrimPrefix(f[0], "-"))
+					ab, _ := hex.DecodeString(strings.TrimPrefix(f[1], "-"))
+					fmt.Sscan(f[2], &l)
+					t, a = string(tb), string(ab)
+				} else {
+					req.WriteString(fmt.Sprintf(" %s:%s:%d", hexOrDash(t), hexOrDash(a), l))
+				}
+				d := mjml.ErrInvalidAttribute(t, a, l)
+				if e == nil {
+					e = d
+				} else {
+					e.Append(d)
+				}
+			}
+			want := "none"
+			if e != nil {
+				want = fmt.Sprintf("%d %s", len(e.Details), hexOrDash(e.Error()))
+			}
+			got, derr := drv.Ask(req.String())
+			res.Case("errval|"+req.String(), k >= 2)
+			res.mu.Lock()
+			res.Programs++
+			res.DisagreementsChecked++
+			res.mu.Unlock()
+			if derr != nil || strings.TrimSpace(got) != want {
+				res.Disagree(Violation{Sig: "error-value-model-mismatch", Kind: "input", What: fmt.Sprintf("the error value built through the public API and the Model differ: %s vs Model %s", short(want, 120), short(got, 120)), Input: map[string]string{"request": req.String()}})
 			}
 		}
 	}
